@@ -809,3 +809,168 @@ Lemma src_stale_witness_harmless :
   exists s, run src_cfg init (firstn 16 stale_witness ++ [SockRecv (D 7 3 8%N); LoopRecv; LoopSend; ConnRead 1 9000%N]) = Some s /\
     length (conns s) = 2 /\ reads_of 1 (trace s) = [D 7 2 8%N; D 7 3 8%N].
 Proof. eexists. split; [vm_compute; reflexivity|]. split; reflexivity. Qed.
+
+(* ---- successive associations of one address are served in arrival order ---- *)
+Definition routes (tr : list ev) : list (pkt * cid) :=
+  flat_map (fun e => match e with ERoute p c => [(p, c)] | _ => [] end) tr.
+Lemma routes_app a b : routes (a ++ b) = routes a ++ routes b.
+Proof. apply flat_map_app. Qed.
+
+(* newest first *)
+Fixpoint mono (l : list (pkt * cid)) : Prop :=
+  match l with
+  | [] => True
+  | x :: r => Forall (fun y => src (fst y) = src (fst x) -> snd y <= snd x) r /\ mono r
+  end.
+
+Definition mono_inv (s : state) : Prop :=
+  Forall (fun x => snd x < length (conns s)) (routes (trace s)) /\
+  (forall a ct, lookup a (table s) = Some ct -> Forall (fun x => src (fst x) = a -> snd x <= ct) (routes (trace s))) /\
+  (forall p c, pending s = Some (p, c) -> lookup (src p) (table s) = Some c) /\
+  mono (rev (routes (trace s))).
+
+Ltac routes_simpl :=
+  unfold with_conn, with_conn_note; cbn [trace conns table pending];
+  rewrite ?routes_app; cbn [routes flat_map app]; rewrite ?app_nil_r.
+
+Lemma Forall_lt_mono (l : list (pkt * cid)) n m : n <= m -> Forall (fun x => snd x < n) l -> Forall (fun x => snd x < m) l.
+Proof. intros L F. eapply Forall_impl; [|exact F]. cbn. intros; lia. Qed.
+
+Lemma mono_inv_step g s t s' : mono_inv s -> exec g s t = Some s' -> mono_inv s'.
+Proof.
+  intros (B & T & P & M) H. pose proof (exec_len _ _ _ _ H) as Ln.
+  exec_cases H; unfold with_conn, with_conn_note in Ln; cbn [conns] in Ln.
+  all: (split; [|split; [|split]]); routes_simpl.
+  all: try (eapply Forall_lt_mono; [exact Ln|exact B]).
+  all: try assumption.
+  all: try (intros; discriminate).
+  - intros a0 ct L. rewrite lookup_remove in L. destruct (Nat.eqb a0 a); [discriminate|]. eauto.
+  - intros a0 ct L. rewrite lookup_remove in L. destruct (Nat.eqb a0 a); [discriminate|]. eauto.
+  - intros p0 c0 Hp. inversion Hp; subst. eapply usable_lookup; eauto.
+  - intros a ct L. rewrite lookup_cons, lookup_remove in L. destruct (Nat.eqb (src p) a) eqn:Q.
+    + inversion L; subst. eapply Forall_impl; [|exact B]. cbn. intros; lia.
+    + rewrite Nat.eqb_sym, Q in L. eauto.
+  - intros p0 c Hp. inversion Hp; subst. rewrite lookup_cons, Nat.eqb_refl. reflexivity.
+  - rewrite length_upd. apply Forall_app. split; [exact B|]. constructor; [|constructor]. cbn. eapply get_lt; eauto.
+  - intros a ct L. apply Forall_app. split; [eauto|]. constructor; [|constructor]. cbn. intro Sa. subst a.
+    rewrite (P _ _ eq_refl) in L. inversion L; lia.
+  - rewrite rev_app_distr. cbn [rev app mono]. split; [|exact M]. cbn [fst snd].
+    apply Forall_rev. apply (T _ _ (P _ _ eq_refl)).
+Qed.
+
+Lemma mono_inv_init : mono_inv init.
+Proof. split; [constructor|split; [intros; discriminate|split; [intros; discriminate|exact I]]]. Qed.
+
+Lemma mono_suffix l1 l2 : mono (l1 ++ l2) -> mono l2.
+Proof. induction l1 as [|x r IH]; cbn; [auto|]. intros [_ M]. auto. Qed.
+
+(* in the order in which the loop handed datagrams over (which is arrival order), a later datagram
+   of the same address never goes to an older association *)
+Lemma routes_monotone g ts s l1 p1 c1 l2 p2 c2 l3 :
+  run g init ts = Some s ->
+  routes (trace s) = l1 ++ (p1, c1) :: l2 ++ (p2, c2) :: l3 -> src p1 = src p2 -> c1 <= c2.
+Proof.
+  intros R E Sa.
+  eapply (run_inv mono_inv g) in R; [|intros; eapply mono_inv_step; eauto|apply mono_inv_init].
+  destruct R as (_ & _ & _ & M). rewrite E in M.
+  rewrite rev_app_distr in M. cbn [rev] in M. rewrite rev_app_distr in M. cbn [rev] in M.
+  rewrite <- !app_assoc in M. cbn [app] in M.
+  apply mono_suffix in M. cbn [mono] in M. destruct M as [F _].
+  rewrite Forall_forall in F. specialize (F (p1, c1)). cbn [fst snd] in F. apply F; [|exact Sa].
+  apply in_or_app. right. left. reflexivity.
+Qed.
+
+
+Lemma routed_to_routes c tr :
+  routed_to c tr = map fst (filter (fun x => Nat.eqb (snd x) c) (routes tr)).
+Proof. induction tr as [|e tr IH]; [reflexivity|]. destruct e; cbn [routed_to routes flat_map app]; auto.
+  fold (routed_to c tr). fold (routes tr). cbn [filter snd]. destruct (Nat.eqb c0 c); cbn [map fst app]; congruence. Qed.
+
+(* ---- causal_ok ---- *)
+Fixpoint acc_cs (cs : list cid) (tr : list ev) : list cid :=
+  match tr with [] => cs | e :: r => match e with ENew c _ => acc_cs (c :: cs) r | _ => acc_cs cs r end end.
+Fixpoint acc_ps (ps : list pkt) (tr : list ev) : list pkt :=
+  match tr with [] => ps | e :: r => match e with EArr p => acc_ps (p :: ps) r | _ => acc_ps ps r end end.
+
+Lemma causal_go_app tr1 tr2 : forall cs ps,
+  causal_go cs ps (tr1 ++ tr2) = causal_go cs ps tr1 && causal_go (acc_cs cs tr1) (acc_ps ps tr1) tr2.
+Proof. induction tr1 as [|e r IH]; intros cs ps; [reflexivity|].
+  destruct e; cbn [app causal_go acc_cs acc_ps]; rewrite ?IH; rewrite ?andb_assoc; reflexivity. Qed.
+
+Lemma acc_cs_in c tr : forall cs, (In c cs \/ exists a, In (c, a) (news tr)) -> nat_in c (acc_cs cs tr) = true.
+Proof. induction tr as [|e r IH]; intros cs H.
+  - cbn. destruct H as [H|[a []]]. unfold nat_in. apply existsb_exists. exists c. split; [exact H|apply Nat.eqb_refl].
+  - destruct e; cbn [acc_cs]; apply IH; cbn [news flat_map app] in H; try tauto.
+    destruct H as [H|[a0 [H|H]]].
+    + left. right. exact H. + inversion H; subst. left. left. reflexivity. + right. eauto. Qed.
+
+Lemma acc_cs_notin c tr : forall cs, ~ In c cs -> (forall a, ~ In (c, a) (news tr)) -> nat_in c (acc_cs cs tr) = false.
+Proof. induction tr as [|e r IH]; intros cs H1 H2.
+  - cbn. unfold nat_in. destruct (existsb (Nat.eqb c) cs) eqn:E; [|reflexivity].
+    apply existsb_exists in E. destruct E as (x & I & Q). apply Nat.eqb_eq in Q. subst x. tauto.
+  - destruct e; cbn [acc_cs]; cbn [news flat_map app] in H2; try (apply IH; [exact H1|exact H2]).
+    apply IH.
+    + intros [Q|Q]; [subst c0; eapply H2; left; reflexivity|tauto].
+    + intros a0 I. eapply H2. right. exact I. Qed.
+
+Lemma acc_ps_in p tr : forall ps, (In p ps \/ In p (arrivals tr)) -> existsb (pkt_eqb p) (acc_ps ps tr) = true.
+Proof. induction tr as [|e r IH]; intros ps H.
+  - cbn. destruct H as [H|[]]. apply existsb_exists. exists p. split; [exact H|]. apply pkt_eqb_eq. reflexivity.
+  - destruct e; cbn [acc_ps]; apply IH; cbn [arrivals flat_map app] in H; try tauto.
+    destruct H as [H|[H|H]]; [left; right; exact H|subst; left; left; reflexivity|right; exact H]. Qed.
+
+Lemma news_has s c k : news_inv s -> get s c = Some k -> exists a, In (c, a) (news (trace s)).
+Proof. intros [_ N2] G. specialize (N2 _ _ G). unfold addr_in in N2.
+  destruct (find (fun x => Nat.eqb (fst x) c) (news (trace s))) as [[c' a]|] eqn:F; [|discriminate].
+  apply find_some in F. destruct F as [I Q]. cbn in Q. apply Nat.eqb_eq in Q. subst c'. eauto. Qed.
+
+Lemma readq_arrived s c k p : ord_inv s -> get s c = Some k -> In p (readq k) -> In p (arrivals (trace s)).
+Proof. intros (I1 & I2 & _) G I. destruct (I1 _ _ G) as [_ S].
+  eapply subseq_In in S; [|apply in_or_app; right; exact I].
+  eapply subseq_In; [|eapply subseq_In; [apply routed_to_sub|exact S]].
+  eapply subseq_prefix. exact I2. Qed.
+
+Definition last_arrived (s : state) : Prop :=
+  forall c k p off, get s c = Some k -> last k = Some (p, off) -> In p (arrivals (trace s)).
+
+Lemma last_arrived_step g s t s' : ord_inv s -> last_arrived s -> exec g s t = Some s' -> last_arrived s'.
+Proof.
+  intros O L H. exec_cases H; intros cx kx px ox G Hl; conn_cases G;
+    unfold with_conn, with_conn_note; cbn [trace]; rewrite ?arrivals_app; cbn [arrivals flat_map app]; rewrite ?app_nil_r;
+    cbn [last caddr set_readq set_last set_phase set_rclosed set_sclosed new_conn] in *; try discriminate; eauto.
+  all: try (apply in_or_app; left; eauto; fail).
+  all: try (inversion Hl; subst; eauto; fail).
+  all: try (inversion Hl; subst; eapply readq_arrived; eauto; match goal with E : readq _ = _ |- _ => rewrite E; left; reflexivity end).
+Qed.
+
+Lemma causal_ok_step g s t s' :
+  ord_inv s -> news_inv s -> last_arrived s -> causal_ok (trace s) = true -> exec g s t = Some s' -> causal_ok (trace s') = true.
+Proof.
+  intros O N L F H. unfold causal_ok in *. pose proof N as [N1 N2].
+  exec_cases H; unfold with_conn, with_conn_note; cbn [trace]; rewrite ?app_nil_r; auto;
+    rewrite causal_go_app, F; cbn [causal_go andb]; rewrite ?andb_true_r; auto.
+  all: repeat match goal with G : get ?s0 ?c = Some ?k |- _ =>
+         lazymatch goal with | _ : In (c, _) (news (trace s0)) |- _ => fail
+         | _ => let a := fresh "a" in let I := fresh "I" in destruct (news_has _ _ _ N G) as [a I] end end.
+  all: try (apply acc_cs_in; right; eauto; fail).
+  all: try (apply andb_true_intro; split; [apply acc_cs_in; right; eauto|apply acc_ps_in; right]).
+  all: try (eapply L; eauto; fail).
+  all: try (eapply readq_arrived; eauto; match goal with E : readq _ = _ |- _ => rewrite E; left; reflexivity end).
+  rewrite acc_cs_notin; [reflexivity|tauto|]. intros a I. apply N1 in I. lia.
+Qed.
+
+Lemma causal_ok_run g ts s : run g init ts = Some s -> causal_ok (trace s) = true.
+Proof. intro H.
+  eapply (run_inv (fun s => obs_inv s /\ last_arrived s /\ causal_ok (trace s) = true) g) in H; [apply H| |].
+  - intros s0 t s1 (Ob & L & F) E. pose proof Ob as (W & O & N & Ow & N3). split; [|split].
+    + split; [|split; [|split; [|split]]].
+      * eapply wf_step; eauto. * eapply ord_inv_step; eauto. * eapply news_inv_step; eauto.
+      * eapply own_inv_step; eauto. * eapply news3_step; eauto.
+    + eapply last_arrived_step; eauto.
+    + eapply causal_ok_step; eauto.
+  - split; [|split].
+    + split; [|split; [|split; [|split]]].
+      * apply wf_init. * apply ord_inv_init. * apply news_inv_init. * apply own_inv_init. * intros c a [].
+    + intros [|c] k p off G; discriminate G.
+    + reflexivity.
+Qed.
